@@ -15,8 +15,8 @@ go test -vet=off -count=1 -run 'Seeded' $pkgs 2>&1 | tail -4
 git apply $src/patch.diff || { echo "PATCH DOES NOT APPLY"; exit 2; }
 echo "== build"; go build ./... && echo build-ok
 echo "== demo WITH change (expect FAIL)"
-go test -vet=off -count=1 -run 'Seeded' $pkgs 2>&1 | grep -E '^(--- FAIL|FAIL|ok)' | head -8
+go test -vet=off -count=1 -run 'Seeded' $pkgs 2>&1 | grep -aE '^(--- FAIL|FAIL|ok)' | head -8
 echo "== suite WITH change, demo removed (expect only TestRoundTrip)"
 while read d f; do rm -f $wt/$d/$(basename $f); done < $src/demos.txt
-go test -vet=off -count=1 ./internal/... 2>&1 | grep -E '^(--- FAIL|FAIL)' | head
+go test -vet=off -count=1 ./internal/... 2>&1 | grep -aE '^(--- FAIL|FAIL)' | head
 cd /; git -C /repo worktree remove --force $wt
